@@ -44,7 +44,19 @@
    (slices.DeleteFunc): a pending read then sees the live array through its old length --
    the following entities shifted down and a zeroed tail, on which the handler panics
    (observation ReadPanicked, no reply).  It is kept for the refutation witness only and
-   assumes that no AddEntity reallocated the array in between. *)
+   assumes that no AddEntity reallocated the array in between.
+
+   [Burst e calls]: overlapping feature creation on ONE entity object -- as many goroutines
+   as calls, released together, no hooks: NextFeatureId alone (BNext), NewFeatureLocal(
+   NextFeatureId) + AddFeature (BAdd ty role, no description, no functions) or
+   GetOrAddFeature (BGet ty role), the (type, role)s of one burst pairwise different (a
+   burst that is not is refused: BadBurst, nothing runs).  Every call takes its feature id
+   in ONE atomic step (Entity.NextFeatureId under muxGenerator) and appends under
+   EntityLocal.mux, so every interleaving hands out the same SET of ids -- next, next+1, ...
+   -- and leaves the same generator; which call obtains which id is the schedule's
+   business.  The model is the sequential composition in the order given; the runner
+   reports the ids sorted and paired with the calls in the order given and from then on
+   names the features of that entity by the model's ids (a bijection on the burst's ids). *)
 From Verif Require Import Base.Prelude.
 
 Definition ROLE_CLIENT : N := 1.
@@ -132,6 +144,11 @@ Fixpoint ins_op (x : N * opflags) (l : list (N * opflags)) : list (N * opflags) 
 Definition sort_ops (l : list (N * opflags)) : list (N * opflags) := fold_right ins_op [] l.
 
 (* ---- operations and observations ---- *)
+Inductive bcall :=
+| BNext                                  (* NextFeatureId *)
+| BAdd (ty role : N)                     (* NewFeatureLocal(NextFeatureId(), ty, role); AddFeature *)
+| BGet (ty role : N).                    (* GetOrAddFeature(ty, role) *)
+
 Inductive op :=
 | NewEntity (e : positive) (ty : N)      (* NewEntityLocal for address e, unless that object exists *)
 | AddEntity (e : positive)               (* DeviceLocal.AddEntity, unless already a member *)
@@ -147,7 +164,8 @@ Inductive op :=
 | Unsubscribe (p c : N)
 | Read (p : N)                           (* peer p reads nodeManagementDetailedDiscoveryData, uninterrupted *)
 | ReadBegin (t p : N)                    (* thread t handles a read of peer p: the entity list is taken; parked at the hook *)
-| ReadEnd (t : N).                       (* thread t continues after the hook: the reply is built from that list and sent *)
+| ReadEnd (t : N)                        (* thread t continues after the hook: the reply is built from that list and sent *)
+| Burst (e : N) (calls : list bcall).    (* overlapping calls on entity object e, one goroutine each, released together *)
 
 Inductive obs :=
 | Created | Exists | NoEntity | AlreadyMember
@@ -166,7 +184,8 @@ Inductive obs :=
 | Other (p : N)                          (* any other datagram written to peer p *)
 | OkDone | NoFeature
 | Parked                                 (* the read handler holds its entity list and is parked at the hook *)
-| ReadPanicked.                          (* the read handler panicked (nil entity in its list); no reply was sent *)
+| ReadPanicked                           (* the read handler panicked (nil entity in its list); no reply was sent *)
+| BadBurst.                              (* two calls of the burst name one (type, role): refused *)
 
 Definition render_feat (e : N) (f : feat) (res : option feat) : list obs :=
   let '(rid, rty, rrole) := match res with
@@ -253,7 +272,33 @@ Definition create (recheck : bool) (s : st) (e ty role : N) : st * list obs :=
       (set_objs s1 (upd_feats e (fun l => l ++ [f]) (objs s1)), [GRet id true])
   end.
 
-Definition step_gen (recheck inplace : bool) (s : st) (o : op) : st * list obs :=
+(* the calls of a burst as the operations they are *)
+Definition bcall_op (e : N) (c : bcall) : op :=
+  match c with
+  | BNext => NextId e
+  | BAdd ty role => AddFeature e ty role 0 []
+  | BGet ty role => GetOrAdd e ty role
+  end.
+
+Definition bcall_tr (c : bcall) : list (N * N) :=
+  match c with
+  | BNext => []
+  | BAdd ty role => [(ty, role)]
+  | BGet ty role => [(ty, role)]
+  end.
+
+Definition tr_mem (x : N * N) (l : list (N * N)) : bool := existsb (sub_eqb x) l.
+
+Fixpoint tr_nodup (l : list (N * N)) : bool :=
+  match l with
+  | [] => true
+  | x :: r => negb (tr_mem x r) && tr_nodup r
+  end.
+
+Definition burst_wf (calls : list bcall) : bool := tr_nodup (flat_map bcall_tr calls).
+
+(* every operation but Burst *)
+Definition step_base (recheck inplace : bool) (s : st) (o : op) : st * list obs :=
   match o with
   | NewEntity e ty =>
       match assoc_N (Npos e) (objs s) with
@@ -369,6 +414,29 @@ Definition step_gen (recheck inplace : bool) (s : st) (o : op) : st * list obs :
                else (s1, render_reply_of s1 p (firstn (length l) (members s)))
           else (s1, render_reply_of s1 p l)
       end
+  | Burst _ _ => (s, [BadBurst])
+  end.
+
+(* the calls of a burst one after the other *)
+Fixpoint run_calls (recheck inplace : bool) (s : st) (l : list op) : st * list obs :=
+  match l with
+  | [] => (s, [])
+  | o :: r =>
+      let '(s1, out) := step_base recheck inplace s o in
+      let '(s2, out2) := run_calls recheck inplace s1 r in
+      (s2, out ++ out2)
+  end.
+
+Definition step_gen (recheck inplace : bool) (s : st) (o : op) : st * list obs :=
+  match o with
+  | Burst e calls =>
+      if burst_wf calls
+      then match assoc_N e (objs s) with
+           | None => (s, [NoEntity])
+           | Some _ => run_calls recheck inplace s (map (bcall_op e) calls)
+           end
+      else (s, [BadBurst])
+  | _ => step_base recheck inplace s o
   end.
 
 Definition step := step_gen true false.
@@ -390,16 +458,32 @@ Definition run_inplace := run_gen true true.
 
 (* ---- wire encoding ----
    op:  0 e ty | 1 e | 2 e | 3 e ty role desc (fn r w ps)* | 4 e fid fn r w ps | 5 e | 6 e ty role |
-        7 t e ty role | 8 t | 9 p c | 10 p c | 11 p | 12 t p | 13 t
+        7 t e ty role | 8 t | 9 p c | 10 p c | 11 p | 12 t p | 13 t |
+        14 e (kind ty role)*   kind 0 BNext (ty role ignored) 1 BAdd 2 BGet
    obs: 0 Created 1 Exists 2 NoEntity 3 AlreadyMember | 4 id | 5 id new | 6 Miss 7 NoThread 8 BusyT | 9 ok |
         10 p c ok | 11 p ok | 12 e ty lsc | 13 e id ty role desc rid rty rrole | 14 fn r rp w wp | 15 REnd |
-        16 p | 17 OkDone 18 NoFeature | 19 Parked 20 ReadPanicked *)
+        16 p | 17 OkDone 18 NoFeature | 19 Parked 20 ReadPanicked | 21 BadBurst *)
 Fixpoint parse_fns (l : list Z) : option (list fnspec) :=
   match l with
   | [] => Some []
   | fn :: r :: w :: ps :: rest =>
       match parse_fns rest with
       | Some x => Some ((Nz fn, bZ r, bZ w, bZ ps) :: x)
+      | None => None
+      end
+  | _ => None
+  end.
+
+Fixpoint parse_calls (l : list Z) : option (list bcall) :=
+  match l with
+  | [] => Some []
+  | k :: ty :: role :: rest =>
+      match parse_calls rest with
+      | Some x =>
+          if Z.eqb k 0 then Some (BNext :: x)
+          else if Z.eqb k 1 then Some (BAdd (Nz ty) (Nz role) :: x)
+          else if Z.eqb k 2 then Some (BGet (Nz ty) (Nz role) :: x)
+          else None
       | None => None
       end
   | _ => None
@@ -425,6 +509,11 @@ Definition parse_op (l : list Z) : option op :=
   | [11; p] => Some (Read (Nz p))
   | [12; t; p] => Some (ReadBegin (Nz t) (Nz p))
   | [13; t] => Some (ReadEnd (Nz t))
+  | 14 :: e :: calls =>
+      match parse_calls calls with
+      | Some x => Some (Burst (Nz e) x)
+      | None => None
+      end
   | _ => None
   end.
 
@@ -451,6 +540,7 @@ Definition print_obs (o : obs) : list Z :=
   | NoFeature => [18]
   | Parked => [19]
   | ReadPanicked => [20]
+  | BadBurst => [21]
   end.
 
 Definition parse_obs (l : list Z) : option obs :=
@@ -477,5 +567,6 @@ Definition parse_obs (l : list Z) : option obs :=
   | [18] => Some NoFeature
   | [19] => Some Parked
   | [20] => Some ReadPanicked
+  | [21] => Some BadBurst
   | _ => None
   end.
